@@ -375,6 +375,220 @@ def _replay(args):
     return ev
 
 
+
+# ---------------------------------------------------------------------------------------------------------------------
+# The memo machine (spec/Memo.tla, MemoMC.tla, trace/MemoTrace.tla): behaviours simulated by TLC are performed on real
+# transcripts; after every call the answer is compared with a fresh twin's (verdict) and cache_info() of all eight
+# memo tables is recorded and validated STEP BY STEP against the machine (model fidelity).
+MEMO_TABLES = [("tx", "get_protein_sequence"), ("tx", "get_cds_sequence"), ("cds", "translate"),
+               ("cds", "has_in_frame_stop"), ("cds", "extract_sequence"), ("cds", "chunk_relative_codon_locations"),
+               ("cds", "chromosome_codon_locations"), ("cds", "prep")]
+MEMO_LAYOUTS = [
+    # exons, strand, cds, chunk (None = chromosome parent).  CDS sequences are planted: GTG start (M only under table
+    # 11), an in-frame TAA before the end, a final stop.
+    ([[2, 40]], "+", [[5, 35]], None), ([[2, 40]], "-", [[5, 35]], None),
+    ([[2, 14], [20, 44]], "+", [[5, 14], [20, 41]], None), ([[2, 14], [20, 44]], "-", [[5, 14], [20, 41]], None),
+    ([[2, 14], [20, 30], [36, 50]], "+", [[8, 14], [20, 30], [36, 50]], (1, 52)),
+    ([[2, 14], [20, 44]], "-", [[5, 14], [20, 41]], (0, 48)),
+    ([[2, 14], [20, 44]], "+", [[5, 14], [20, 41]], (7, 38)), ([[2, 40]], "+", [[5, 35]], (9, 30)),
+]
+
+
+def _plant(layout, rnd):
+    """a chromosome whose CDS reads GTG ... TAA ... <sense> TGA in frame"""
+    exons, st, cds, chunk = layout
+    G = 56
+    root = [rnd.choice("ACGT") for _ in range(G)]
+    pos = [p for b in cds for p in range(b[0], b[1])]
+    if st == "-":
+        pos = pos[::-1]
+    n = len(pos) - len(pos) % 3
+    sense = []
+    for i in range(0, n, 3):
+        c = rnd.choice(["GCT", "AAA", "CCG", "TTC", "GGA", "CAT"])
+        sense.append(c)
+    sense[0] = rnd.choice(["GTG", "TTG", "ATG"])
+    if len(sense) > 4:
+        sense[rnd.randrange(2, len(sense) - 1)] = "TAA"
+    sense[-1] = "TGA"
+    comp = {"A": "T", "C": "G", "G": "C", "T": "A"}
+    for j, ch in enumerate("".join(sense)):
+        root[pos[j]] = ch if st == "+" else comp[ch]
+    return "".join(root)
+
+
+def _memo_obs(tx):
+    cds = tx.cds
+    out = []
+    for who, name in MEMO_TABLES:
+        o = tx if who == "tx" else cds
+        if name == "prep":
+            name = "_prepare_multi_exon_window_for_scan_codon_locations" if cds.num_blocks > 1 else \
+                "_prepare_single_exon_window_for_scan_codon_locations"
+        w = None
+        for k, v in vars(o).items():
+            if k.startswith("__wire|") and k.endswith("|" + name):
+                w = v
+        if w is None:
+            rope = getattr(type(o), name, None)
+            if rope is not None and not isinstance(getattr(type(o), name), property) and callable(getattr(o, name, None)) \
+                    and hasattr(getattr(o, name), "cache_info") and name not in (
+                    "has_in_frame_stop", "chunk_relative_codon_locations", "chromosome_codon_locations"):
+                w = getattr(o, name)
+        if w is None or not hasattr(w, "cache_info"):
+            out.append([0, 0, 0])
+        else:
+            ci = w.cache_info()
+            out.append([ci.hits, ci.misses, ci.currsize])
+    return out
+
+
+def _memo_call(tx, method, form, wins):
+    from inscripta.biocantor.gene.codon import TranslationTable
+
+    args = {"()": (), "(T)": (True,), "(F,11)": (False, TranslationTable.PROKARYOTE),
+            "(F,1,F)": (False, TranslationTable.DEFAULT, False)}
+    who, name = method.split(".")
+    o = tx if who == "tx" else tx.cds
+    if name in ("get_protein_sequence", "translate"):
+        return getattr(o, name)(*args[form])
+    if name == "scan_chunk_window":
+        return list(o.scan_chunk_relative_codon_locations(*wins[form]))
+    if name == "scan_chrom_window":
+        return list(o.scan_chromosome_codon_locations(*wins[form]))
+    if name == "scan_codons":
+        return [str(c) for c in o.scan_codons()]
+    v = getattr(o, name)
+    return v() if callable(v) and name in ("get_cds_sequence", "extract_sequence") else v
+
+
+def _memo_replay(args):
+    behaviours, seed = args
+    setup_repo_import()
+    from inscripta.biocantor.io.parser import seq_chunk_to_parent
+    from inscripta.biocantor.parent import Parent
+    from bcverif.props.c05 import _consistent_frames
+
+    rnd = random.Random(seed)
+    ev = []
+    tid = 0
+    for beh in behaviours:
+        layout = rnd.choice(MEMO_LAYOUTS)
+        exons, st, cds, chunk = layout
+        root = _plant(layout, rnd)
+        frames = list(_consistent_frames(cds, st, 0))
+
+        def build():
+            par = seq_chunk_to_parent(root[chunk[0]:chunk[1]], "chr", chunk[0], chunk[1]) if chunk else None
+            return mk_tx_(exons, st, cds, root if not chunk else None, frames, par)
+
+        lo, hi = cds[0][0], cds[-1][1]
+        wins = {"w1": (lo + 4, hi - 3), "w2": (lo + 7, hi)}
+        try:
+            X = build()
+        except Exception:
+            continue
+        tid += 1
+        ev.append(["new", tid])
+        twin = {}
+        for (method, form, _pred) in beh:
+            ans = answer(lambda: _memo_call(X, method, form, wins))
+            key = (method, form)
+            if key not in twin:
+                Parent.cache_clear()
+                T = build()
+                twin[key] = answer(lambda: _memo_call(T, method, form, wins))
+            ev.append(["call", tid, method, form, _memo_obs(X), ans[0] == twin[key][0], ans[1] == twin[key][1]])
+    return ev
+
+
+def mk_tx_(exons, st, cds, root, frames, par):
+    return mk_tx_impl()(exons, st, cds, root, frames=frames, parent=par, transcript_id="txm")
+
+
+def mk_tx_impl():
+    from bcverif.props.c06 import mk_tx
+
+    return mk_tx
+
+
+def _memo_corrupt(ev, rnd):
+    if ev[0] != "call":
+        return None
+    ev[5] = not ev[5]
+    return ev
+
+
+def memo_leg(chk):
+    quick = chk.quick
+    chk.mc("MemoMC", "MemoMC.cfg", note="the memo machine of TranscriptInterval / CDSInterval (eight bounded LRU tables keyed "
+           "by literal call form, nested calls in program order, the codon-locations flag): every reachable table content, "
+           "every public call from it answers with the method's own answer; bounds, key uniqueness, cache_info bookkeeping")
+    chk.mc("MemoMC", "MemoMC_neg.cfg", expect_violation=True,
+           note="translate() filed under a key that forgets the translation table (as seeded change C05-3 did)")
+    r = chk.mc("MemoMC", "MemoSim.cfg", workers=1, simulate="num=%d" % (160 if quick else 4000),
+               extra=["-depth", "11", "-seed", str(chk.seed + 41)],
+               note="simulated behaviours of 10 public calls, each step with the cache_info() vector the machine predicts; "
+                    "emitted for replay on real transcripts")
+    from bcverif.runner import parse_prints
+
+    behs = [b[0] for b in parse_prints(r["out"], "MEMO")]
+    if len(behs) < 50:
+        raise MachineryError("TLC emitted only %d memo behaviours" % len(behs))
+    parts = pmap(_memo_replay, [(behs[i::16], chk.seed * 31 + i) for i in range(16)])
+    evs = []
+    tid = 0
+    for p in parts:  # renumber objects across workers
+        m = {}
+        for e in p:
+            if e[0] == "new":
+                tid += 1
+                m[e[1]] = tid
+            e[1] = m[e[1]]
+            evs.append(e)
+    chk.validate("MemoTrace", evs, shard=3000, label="memo", cfg="MemoTrace.cfg", corrupt=_memo_corrupt,
+                 align=lambda e: e[0] == "new")
+    divs = [c for (_off, c) in chk.last_info if c and c[0] == "DIV"]
+    # binding control of the stepped validation itself: one cache_info() number of one call of each of the first
+    # objects is changed; the machine must diverge at exactly those lines
+    import copy
+    import os
+    from bcverif.runner import _validate_shard
+
+    ctl, want, nobj = [], [], 0
+    for e in evs:
+        if e[0] == "new":
+            nobj += 1
+            if nobj > 12:
+                break
+            k = 0
+        e2 = copy.deepcopy(e)
+        if e[0] == "call":
+            k += 1
+            if k == 3:
+                e2[4][(nobj * 3) % 8][1] += 1
+                want.append(len(ctl) + 1)
+        ctl.append(e2)
+    cpath = os.path.join(chk.dir, "traces", "MemoTrace_fidelity_control.ndjson")
+    with open(cpath, "w") as f:
+        for e in ctl:
+            f.write(json.dumps(e, separators=(",", ":")) + "\n")
+    res = _validate_shard((chk.dir, "MemoTrace", cpath, len(ctl), None, 600, "MemoTrace.cfg"))
+    got = sorted(c[1][0] for c in res["info"] if c and c[0] == "DIV")
+    if got != want:
+        raise MachineryError("stepped memo validation: corrupted cache_info lines %s, machine diverged at %s" % (want, got))
+    objects = sum(1 for e in evs if e[0] == "new")
+    calls = sum(1 for e in evs if e[0] == "call")
+    chk.extra["memo_machine"] = {
+        "behaviours_from_tlc": len(behs), "objects": objects, "calls_validated_step_by_step": calls,
+        "objects_whose_tables_follow_the_machine": objects - len(divs),
+        "stepped_validation_control": "%d corrupted cache_info lines, all %d located by the machine" % (len(want), len(got)),
+        "divergences": [{"line": d[1][0], "table": d[1][1], "machine": d[1][2], "observed": d[1][3]} for d in divs[:8]],
+        "meaning": "a divergence is model drift (the call graph of the memoised methods changed), not a violation; "
+                   "the C10 verdict of this leg is the answer comparison with a fresh twin at every step"}
+    return evs
+
+
 def _corrupt(ev, rnd):
     """binding control: one observed field of a replayed history changed"""
     k = rnd.choice([3, 4, 8, 9])
@@ -429,6 +643,7 @@ def run(chk):
     parts = pmap(_replay, jobs)
     evs = [e for p in parts for e in p]
     chk.validate("C10Trace", evs, shard=1500, label="hist", corrupt=_corrupt)
+    memo_leg(chk)
     chk.nontrivial = len({(e[1], tuple(e[2])) for e in evs})
     chk.extra["histories_emitted_by_tlc"] = total_emitted
     chk.extra["histories_replayed"] = len(evs)
